@@ -127,6 +127,17 @@ def gcirc_body(case):
         strip = np.asarray(call(gcirc, a[:, 0], float(a[0, 1]), float(a[0, 2]), float(a[0, 3]), units=units))
         refs = vincenty_ld(r[:, 0], r0[1], r0[2], r0[3])
         refs = refs if units == 0 else refs * (180 / PI_LD) * 3600
+        # points along one parallel / one meridian: the RA pair has one element per point, the Dec pair is a one-element array (and the
+        # other way round)
+        par = np.asarray(call(gcirc, a[:, 0], a[:1, 1], a[:, 2], a[:1, 1], units=units))
+        mer = np.asarray(call(gcirc, a[:1, 0], a[:, 1], a[:1, 0], a[:, 3], units=units))
+        refp = vincenty_ld(r[:, 0], r0[1], r[:, 2], r0[1])
+        refm = vincenty_ld(r0[0], r[:, 1], r0[0], r[:, 3])
+        refp, refm = (refp, refm) if units == 0 else (refp * (180 / PI_LD) * 3600, refm * (180 / PI_LD) * 3600)
+        with judge('gcirc-parallel-meridian'):
+            check(par.shape == (len(a),) and mer.shape == (len(a),), 'gcirc:parallel-meridian-shape', str((par.shape, mer.shape)))
+            check(bool(np.all(np.abs(par.astype(LD) - refp) <= 1e-6 * refp + floor)) and bool(np.all(np.abs(mer.astype(LD) - refm) <= 1e-6 * refm + floor)),
+                  'gcirc:parallel-meridian-wrong-distance', lambda: dict(units=units))
         with judge('gcirc-strip'):
             check(strip.shape == (len(a),), 'gcirc:strip-shape', str(strip.shape))
             check(bool(np.all(np.abs(strip.astype(LD) - refs) <= 1e-6 * refs + floor)), 'gcirc:strip-wrong-distance', lambda: dict(units=units))
@@ -296,7 +307,7 @@ def angle_case(draw):
         phi = draw(st.one_of(st.sampled_from([0.0, 360.0, -180.0, 180.0, 720.5, -1e-9, 359.9999999]), uf.map(lambda v: 400 * v)))
         theta = draw(st.one_of(st.sampled_from([0.0, 180.0, 90.0, 1e-8, 180 - 1e-8, 1e-5, 179.99999, 0.005]), uf.map(lambda v: 90 * (1 + v))))
         rows.append([phi, theta])
-    return dict(rows=rows, latitude=draw(st.booleans()), whole=draw(st.sampled_from([False, False, True])))
+    return dict(rows=rows, latitude=draw(st.booleans()), whole=draw(st.sampled_from([False, False, True, 'i4', 'i1'])))
 
 
 def angle_body(case):
@@ -308,8 +319,22 @@ def angle_body(case):
     arg = A.copy()
     if lat:
         arg[:, 1] = 90.0 - A[:, 1]       # hand over declination instead of polar angle
+    if case.get('whole') == 'i1':
+        # the narrowest integer type: azimuths below 128 degrees only; NumPy evaluates trigonometric functions of 8-bit integers in
+        # half precision, so only a gross error (2e-3) is looked for
+        A[:, 0] = np.abs(A[:, 0]) % 120
+        arg[:, 0] = A[:, 0]
+        arg[:, 1] = 90.0 - A[:, 1]       # declinations (-90 .. 90 fit in 8 bits, polar angles up to 180 do not)
+        X8 = call(angles_to_x, arg.astype('i1'), latitude=True)
+        with judge('angles_to_x-int8'):
+            ph, th = np.radians(A[:, 0]), np.radians(A[:, 1])
+            ref = np.stack([np.cos(ph) * np.sin(th), np.sin(ph) * np.sin(th), np.cos(th)], -1)
+            check(np.shape(X8) == (len(A), 3) and bool(np.all(np.abs(np.asarray(X8, dtype='f8') - ref) < 2e-3)), 'angles_to_x:wrong-vector-for-8-bit-angles',
+                  lambda: dict(angles=arg.tolist(), got=np.asarray(X8, dtype='f8').tolist(), want=ref.tolist()))
+        note_label('int8-angles')
+        return
     if case.get('whole'):
-        arg = arg.astype('i8')
+        arg = arg.astype('i8' if case['whole'] is True else case['whole'])
     X = call(angles_to_x, arg, latitude=lat)
     with judge('angles_to_x'):
         check(X.shape == (len(A), 3), 'angles_to_x:shape')
